@@ -740,6 +740,37 @@ func genProto() (string, error) {
 		return true
 	})
 	fmt.Fprintf(&b, "/-- composite literals built by `bft.Message.SignBytes`, in source order -/\ndef msgSignBytesLiterals : List (String × List (String × String)) := [%s]\n", strings.Join(lits, ", "))
+	// the ELECTION branch of CheckProposerMessage: what checkSignatureBasic is applied to before the
+	// VRF is dereferenced, and checkSignatureBasic itself (presence and the 48 / 96 element sizes)
+	cpm := bf.FindFunc("BFT", "CheckProposerMessage")
+	if cpm == nil {
+		return "", fmt.Errorf("bft/msg.go: CheckProposerMessage not found")
+	}
+	var electionChecks []string
+	electionBranch := ""
+	for _, st := range cpm.Body.List {
+		ifs, ok := st.(*ast.IfStmt)
+		if !ok || g.ExprText(ifs.Cond) != "x.Header.Phase == Election" {
+			continue
+		}
+		electionBranch = g.StmtsText(ifs.Body.List)
+		ast.Inspect(ifs.Body, func(n ast.Node) bool {
+			if ce, ok := n.(*ast.CallExpr); ok && g.ExprText(ce.Fun) == "checkSignatureBasic" && len(ce.Args) == 1 {
+				electionChecks = append(electionChecks, g.ExprText(ce.Args[0]))
+			}
+			return true
+		})
+	}
+	if electionBranch == "" {
+		return "", fmt.Errorf("bft/msg.go: CheckProposerMessage has no `x.Header.Phase == Election` branch")
+	}
+	fmt.Fprintf(&b, "/-- arguments of `checkSignatureBasic` in the ELECTION branch of `CheckProposerMessage` -/\ndef electionBasicChecks : List String := %s\n", strList(electionChecks))
+	fmt.Fprintf(&b, "def src_electionBranch : String := %q\n", electionBranch)
+	if fd := bf.FindFunc("", "checkSignatureBasic"); fd != nil {
+		fmt.Fprintf(&b, "def src_checkSignatureBasic : String := %q\n", g.StmtsText(fd.Body.List))
+	} else {
+		return "", fmt.Errorf("bft/msg.go: checkSignatureBasic not found")
+	}
 	for _, fn := range []string{"IsReplicaMessage", "IsProposerMessage", "IsPacemakerMessage"} {
 		fd := bf.FindFunc("Message", fn)
 		if fd == nil {
